@@ -51,14 +51,14 @@ func alphabet(c int, same bool) []op {
 }
 
 type config struct {
-	cap    int
-	warm   int  // number of store/delete warm-up pairs on disjoint keys (-1: none)
-	prefil int  // number of entries pre-stored (keys from the alphabet) before the sequence
-	cb     bool // callback registered
-	depth  int
-	same   bool // alphabet additionally holds StoreSame(k): the value stored is constant per key
+	cap     int
+	warm    int  // number of store/delete warm-up pairs on disjoint keys (-1: none)
+	prefil  int  // number of entries pre-stored (keys from the alphabet) before the sequence
+	cb      bool // callback registered
+	depth   int
+	same    bool // alphabet additionally holds StoreSame(k): the value stored is constant per key
 	cbPanic bool // the removal callback panics for key "b" (after logging); every operation is wrapped in recover
-	exotic bool // the keys are unusual but legal map keys: nil, 0, "", struct{}{}, 1.5 (any comparable value is a key)
+	exotic  bool // the keys are unusual but legal map keys: nil, 0, "", struct{}{}, 1.5 (any comparable value is a key)
 }
 
 // exoticKeys maps the key labels of the alphabet to unusual keys.
